@@ -428,6 +428,14 @@ def node(t: Type, rng: Optional[Rng] = None, p_expand: float = 0.0) -> str:
 
 
 def render_def(d, rng: Optional[Rng], p_expand: float) -> str:
+    # Spelling choices (shorthand or expanded syntax, primitive aliases, hex) are a function of the package's render seed and of
+    # the *names* of the definition and member, not of what was rendered before: an unchanged member is spelled alike in every
+    # version of a package.  (yardl - the pinned upstream too - reports `T?` in one version against `[null, T]` in the other as
+    # an incompatible change when it sits inside a vector or stream; that is C06/C13 territory and made most version chains
+    # that have such members unusable for C05.)
+    base = rng
+    def fork(*names):
+        return base.fork("spell", d.name, *names) if base is not None else None
     out = []
     if d.comment:
         out.append("# " + d.comment)
@@ -438,7 +446,7 @@ def render_def(d, rng: Optional[Rng], p_expand: float) -> str:
         out.append("%s: !record" % head)
         out.append("  fields:")
         for n, t in d.fields:
-            out.append("    %s: %s" % (n, node(t, rng, p_expand)))
+            out.append("    %s: %s" % (n, node(t, fork(n), p_expand)))
         if d.computed:
             out.append("  computedFields:")
             for n, e in d.computed:
@@ -446,28 +454,28 @@ def render_def(d, rng: Optional[Rng], p_expand: float) -> str:
     elif isinstance(d, Enum):
         out.append("%s: %s" % (head, "!flags" if d.flags else "!enum"))
         if d.base:
-            out.append("  base: %s" % prim_spelling(d.base, rng))
+            out.append("  base: %s" % prim_spelling(d.base, fork("base")))
         out.append("  values:")
         if d.explicit_values:
             for s, v in d.values:
-                out.append("    %s: %s" % (s, hex(v) if (rng is not None and v >= 0 and rng.chance(0.2)) else str(v)))
+                out.append("    %s: %s" % (s, hex(v) if (rng is not None and v >= 0 and fork(s).chance(0.2)) else str(v)))
         else:
             for s, _ in d.values:
                 out.append("    - %s" % s)
     elif isinstance(d, Alias):
-        out.append("%s: %s" % (head, node(d.type, rng, p_expand)))
+        out.append("%s: %s" % (head, node(d.type, fork("alias"), p_expand)))
     elif isinstance(d, Protocol):
         out.append("%s: !protocol" % head)
         out.append("  sequence:")
         for n, t, stream in d.steps:
             if stream:
-                if rng is not None and rng.chance(0.5):
-                    out.append("    %s: !stream {items: %s}" % (n, node(t, rng, p_expand)))
+                if rng is not None and fork(n, "flow").chance(0.5):
+                    out.append("    %s: !stream {items: %s}" % (n, node(t, fork(n), p_expand)))
                 else:
                     out.append("    %s: !stream" % n)
-                    out.append("      items: %s" % node(t, rng, p_expand))
+                    out.append("      items: %s" % node(t, fork(n), p_expand))
             else:
-                out.append("    %s: %s" % (n, node(t, rng, p_expand)))
+                out.append("    %s: %s" % (n, node(t, fork(n), p_expand)))
     else:
         raise TypeError(d)
     return "\n".join(out) + "\n"
@@ -809,13 +817,14 @@ class PackageGen:
         if self.generic_defs and self.cfg.generics and r.chance(0.35):
             d = r.choice(self.generic_defs)
             args = []
-            for _ in d.params:
+            in_union = getattr(d, "_params_in_union", False)
+            for k, _ in enumerate(d.params):
                 for _ in range(8):
                     a = self.gen_type(max(0, depth - 1), params, allow_param=False)
-                    if self.arg_ok(d, a):
+                    if self.arg_ok(d, a) and not (in_union and (self.bad_case_type(a) or self.canon(a) in [self.canon(x) for x in args])):
                         break
                 else:
-                    a = Prim("int32")
+                    a = [Prim("int32"), Prim("string"), Prim("float64")][k % 3]
                 args.append(a)
             return Named(d.name, tuple(args))
         return r.choice(self.pool)
@@ -982,6 +991,16 @@ class PackageGen:
         r, c = self.rng, self.cfg
         generic = c.generics and r.chance(0.2)
         name = self.type_name("Als")
+        if generic and r.fork("union2", name).chance(0.3):
+            # a generic union over two type parameters (`Result<T, E>: [T, E]`), now and then with a null case
+            k = r.fork("union2b", name)
+            u = Union((("t" + name, TParam("T")), ("u" + name, TParam("U"))), nullable=k.chance(0.3), explicit=True)
+            d = Alias(name, ("T", "U"), u)
+            d._param_in_opt = d._param_in_vec = False
+            d._params_in_union = True
+            self.add(d, r.randrange(8))
+            self.generic_defs.append(d)
+            return
         if generic:
             p = r.choice(["T", "U"])
             shape = r.weighted([("vec", 3), ("map", 2), ("plain", 1), ("opt", 1)])
